@@ -108,7 +108,7 @@ def ref_tokens(text, state, last, cdata, compat=frozenset(), transitions=None):
     return toks
 
 
-BEFORE = ["<svg><text>x\x00y</text></svg>", "<math>\x00", "<svg>\x00</svg><p>\x00", "<title>a</title x=y>", "<textarea>\x00</textarea a=b>", "<svg><![CDATA[\x00]]>", "<p a=1 a=2>",
+BEFORE = ["<!DOCTYPE html><p>a<>b", "<!DOCTYPE html>a&zz;b", "<!DOCTYPE html><p>\x00x", "<!DOCTYPE html><p></p x=y>q", "<!DOCTYPE html><a b=>c", "<!DOCTYPE html><!-->d", "<svg><text>x\x00y</text></svg>", "<math>\x00", "<svg>\x00</svg><p>\x00", "<title>a</title x=y>", "<textarea>\x00</textarea a=b>", "<svg><![CDATA[\x00]]>", "<p a=1 a=2>",
           "<table>\x00<tr>\x00", "<select>\x00", "<!DOCTYPE html PUBLIC \"\" \"\">", "<script>\x00</script>", "<plaintext>\x00", "<frameset>\x00", "<svg><desc>\x00<p>\x00"]
 
 
@@ -154,6 +154,12 @@ def check_case(case, want_transitions=None):
                 import html5lib
                 html5lib.parse(case["before"])
                 html5lib.parseFragment(case["before"], container="svg")
+            except Exception:
+                pass
+            try:
+                # ... nor must whatever an ABANDONED run left behind (a strict parser stops at the first error token, with the
+                # tokens queued behind it unread)
+                html5lib.HTMLParser(strict=True).parse(case["before"])
             except Exception:
                 pass
         if case.get("skip"):
